@@ -91,6 +91,9 @@ def seq_expect(seq):
 int_values = st.one_of(st.sampled_from(SPECIAL_INTS), st.integers(-(10**6), 10**6), st.integers(-(2**64), 2**64))
 
 
+SEQ_STYLES = gen.STYLES
+
+
 @st.composite
 def sequence(draw):
     chosen = []
@@ -108,8 +111,8 @@ def sequence(draw):
             opts.append([k, v])
         else:
             opts.append([k])
-    sch = draw(st.one_of(st.none(), gen.ident()))
-    return {"schema": sch, "name": draw(gen.ident()), "opts": opts}
+    sch = draw(st.one_of(st.none(), gen.ident(styles=SEQ_STYLES)))
+    return {"schema": sch, "name": draw(gen.ident(styles=SEQ_STYLES)), "opts": opts}
 
 
 @st.composite
